@@ -32,7 +32,17 @@ fn gen_scenario(rng: &mut vsim::rng::Rng) -> Scenario {
         hooks: rng.below(4) == 0,
         outputs: true, drop_outputs: true
     };
+    // an eighth of the cases play the multi-step cancel history on purpose (generator-free models)
+    let family = rng.below(8) == 0;
+    let mut opts = opts;
+    if family {
+        opts.generators = false;
+        opts.hooks = false;
+    }
     let mut sc = gen_lifecycle(rng, &opts);
+    if family {
+        cancel_family(&mut sc, rng);
+    }
     // writers: set / code acts on the names the workflow declares, env at start and from scripts
     let m = &mut sc.models[0];
     let mut n = 0;
